@@ -408,7 +408,7 @@ def h_noswallow(F, R):
                         "%s: an error-remapping closure may turn an I/O (EOF) error into a protocol error: %s" % (f["root"], pp(cb)[:200]), where=loc(x))
                 continue
             R.fail("H-noswallow", key + "/unknown", "%s: map_err closure %s on a fallible read discards or relabels the error" % (f["root"], pp(cb)[:120]), where=loc(x))
-    R.floor("H-noswallow", "map_err sites", n, 8)
+    R.floor("H-noswallow", "map_err sites", n, 4)
     R.analysed["map_err_sites"] = dict(cats)
     # errors are consumed only by `?`, the blocking wrappers and poll's substitutions: no `.ok()`, `unwrap_or*`, `if let Ok`
     bad = 0
